@@ -57,7 +57,7 @@ THRESHOLDS = [0, 3, 400]
 
 
 def run_lean_unit(lines):
-    return core.run_lean(lines, main="Driver/Main_Compile.lean")
+    return core.run_lean(lines)
 
 
 # ----------------------------------------------------------------------------- decompiler
